@@ -104,6 +104,11 @@ func (a *AddFeatures) fillFromFeature(f *geojson.Feature, namespace b6.Namespace
 		*a = append(*a, feature)
 
 		for key, value := range f.Properties {
+			if _, ok := feature.(*GenericFeature); ok && (key == b6.PointTag || key == b6.PathTag) {
+				// Points and paths hold their geometry in a tag with this
+				// key, which a property would otherwise shadow.
+				continue
+			}
 			feature.AddTag(b6.Tag{Key: key, Value: b6.NewStringExpression(value)})
 		}
 	}
